@@ -102,8 +102,12 @@ func fontBytes(resources, name string) ([]byte, error) {
 	return b, nil
 }
 
-// NewEnv loads the run's font table. Must be called by the harness goroutine, outside simulations.
-func NewEnv(resources, fontDir string, names []string) (*Env, error) {
+// NewEnv prepares the run's font table. With lazy=false all fonts are loaded at once (simulation
+// phase: tasks must not load the shared fonts themselves). With lazy=true (reference phase, one
+// environment per call) font i is loaded when first used, together with all fonts before it, so
+// that the fallback names f<N> of name-less fonts are the same as with eager loading.
+// Must be called by the harness goroutine, outside simulations.
+func NewEnv(resources, fontDir string, names []string, lazy bool) (*Env, error) {
 	e := &Env{Resources: resources, FontDir: fontDir, Names: names}
 	for _, n := range names {
 		b, err := fontBytes(resources, n)
@@ -114,14 +118,42 @@ func NewEnv(resources, fontDir string, names []string) (*Env, error) {
 		base := strings.TrimPrefix(n, "noname:")
 		e.Files = append(e.Files, filepath.Join(resources, base))
 		e.NoName = append(e.NoName, strings.HasPrefix(n, "noname:"))
-		f, err := canvas.LoadFont(b, 0, canvas.FontRegular)
-		if err != nil {
-			return nil, fmt.Errorf("font %s: %w", n, err)
+	}
+	e.Shared = make([]*canvas.Font, len(names))
+	if !lazy {
+		for i := range names {
+			if err := e.load(i); err != nil {
+				return nil, err
+			}
 		}
-		simrt.RegisterPtr(f)
-		e.Shared = append(e.Shared, f)
 	}
 	return e, nil
+}
+
+func (e *Env) load(i int) error {
+	for j := 0; j <= i; j++ {
+		if e.Shared[j] != nil {
+			continue
+		}
+		f, err := canvas.LoadFont(e.Bytes[j], 0, canvas.FontRegular)
+		if err != nil {
+			return fmt.Errorf("font %s: %w", e.Names[j], err)
+		}
+		simrt.RegisterPtrID(f, uint64(j+1))
+		e.Shared[j] = f
+	}
+	return nil
+}
+
+// Font returns shared font i (modulo the table size).
+func (e *Env) Font(i int) *canvas.Font {
+	i %= len(e.Shared)
+	if e.Shared[i] == nil {
+		if err := e.load(i); err != nil {
+			panic(err)
+		}
+	}
+	return e.Shared[i]
 }
 
 // ---- building inputs ------------------------------------------------------------------------
@@ -194,7 +226,7 @@ func hashFace(h *hasher, f *canvas.FontFace, env *Env) {
 	// fonts are history-dependent by design)
 	idx := -1
 	for i, sf := range env.Shared {
-		if sf == f.Font {
+		if sf != nil && sf == f.Font {
 			idx = i
 		}
 	}
@@ -394,7 +426,7 @@ func execStep(env *Env, st *Step) Result {
 		face := stepFace(env, st)
 		rt := canvas.NewRichText(face)
 		words := strings.Fields(st.Text)
-		other := env.Shared[(st.Font+1)%len(env.Shared)].Face(st.Size*0.8, color.RGBA{200, 0, 0, 255}, decos[(st.Deco+1)%len(decos)]...)
+		other := env.Font(st.Font+1).Face(st.Size*0.8, color.RGBA{200, 0, 0, 255}, decos[(st.Deco+1)%len(decos)]...)
 		for i, w := range words {
 			if i%2 == 0 {
 				rt.WriteFace(face, w+" ")
@@ -457,7 +489,7 @@ func execStep(env *Env, st *Step) Result {
 }
 
 func stepFace(env *Env, st *Step) *canvas.FontFace {
-	f := env.Shared[st.Font%len(env.Shared)]
+	f := env.Font(st.Font)
 	face := f.Face(st.Size, color.RGBA{0, 0, uint8(40 * st.Style), 255}, decos[st.Deco%len(decos)]...)
 	// faux styles and variants as FontFamily.Face would set them for a family with one regular font
 	switch styles[st.Style%4] {
@@ -544,7 +576,7 @@ func renderStep(env *Env, st *Step) Result {
 			}
 			ctx.DrawPath(it.X, it.Y, buildPath(it.Shape))
 		case "text":
-			f := env.Shared[it.Font%len(env.Shared)]
+			f := env.Font(it.Font)
 			face := f.Face(it.Size, color.RGBA{it.Fill[0], it.Fill[1], it.Fill[2], 255}, decos[it.Deco%len(decos)]...)
 			if it.Style%2 == 1 {
 				face.FauxBold = 0.02
